@@ -65,15 +65,39 @@ def run(ctx):
             key = a[0]
             evs = [e for e in (key[2] if key.tag == 'mut' else ()) if e.tag == 'ev']
             seq = []
+            raw = []
             for e in evs:
                 op = e[2].split('::')[-1]
                 v = e[3][0] if e[3] else None
-                c = canon(v) if v is not None else ''
                 site_bb = e[4][0][1]
-                conds = [canon(cnd) + str(arms) for (sw, cnd, arms, tg) in ctx.path_conditions(n, site_bb) if cnd.tag == 'discr' and cnd[1].tag == 'param']
-                seq.append((op, c, tuple(conds)))
+                raw.append((op, v, [(cnd, arms) for (sw, cnd, arms, tg) in ctx.path_conditions(n, site_bb) if cnd.tag == 'discr']))
+            # a loop over a literal array of k items is the k-fold repetition of its body, item by item
+            arr_elems = {}
+            for op, v, cds in raw:
+                for t0 in [v] + [c for c, _ in cds]:
+                    for x in (walk(t0) if t0 is not None else ()):
+                        if x.tag == 'elem' and strip(x[1]).tag == 'array' and strip(x[1]).args:
+                            arr_elems[x.id] = x
+            unrolled = []
+            if len(arr_elems) == 1:
+                el = list(arr_elems.values())[0]
+                inloop = [any(y is el for t0 in [v] + [c for c, _ in cds] if t0 is not None for y in walk(t0)) for op, v, cds in raw]
+                first = inloop.index(True)
+                last = len(inloop) - 1 - inloop[::-1].index(True)
+                unrolled = raw[:first]
+                for item in strip(el[1]).args:
+                    for op, v, cds in raw[first:last + 1]:
+                        unrolled.append((op, ctx.eng.subst_term(v, el, item) if v is not None else None, [(ctx.eng.subst_term(c, el, item), a) for c, a in cds]))
+                unrolled += raw[last + 1:]
+                raw = unrolled
+            for op, v, cds in raw:
+                c = canon(v) if v is not None else ''
+                if op == 'push' and c.isdigit():
+                    # one pushed byte is the one-byte string
+                    op, c = 'append', repr(bytes([int(c)]))
+                seq.append((op, c, tuple(canon(cnd) + str(arms) for cnd, arms in cds if cnd[1].tag == 'param')))
             want = [
-                ('push', '0', ()),
+                ('append', "b'\\x00'", ()),
                 ('extend_from_slice', 'as_bytes(p1)', ()),
                 ('append', "b'j'", ("discr(p3)('1',)",)),
                 ('append', 'encode_usize(p3)', ("discr(p3)('1',)",)),
